@@ -45,14 +45,15 @@ def _cases(ctx, quick, thorough):
 
 
 def ties(ctx):
+    # compile both harnesses before the long runs (the shared library cache may be pruned by concurrent checks)
     h = ctx.harness('c16_ext', ['c16_ext.c'], variant='san')
+    hr = ctx.harness('c07_repack', ['c07_repack.c'], variant='san')
     out = []
-    out.append(common.run_tie('ext-rand', [h, 'rand', str(ctx.seed), _cases(ctx, 2500, 30000)]))
-    out.append(common.run_tie('ext-bytes', [h, 'bytes', str(ctx.seed + 1000), _cases(ctx, 30000, 400000)]))
+    out.append(common.run_tie('ext-rand', [h, 'rand', str(ctx.seed), _cases(ctx, 2000, 20000)]))
+    out.append(common.run_tie('ext-bytes', [h, 'bytes', str(ctx.seed + 1000), _cases(ctx, 24000, 300000)]))
     # extension carriage through the repacketizer (merge / split / pad_impl with extension lists): op sequences of the C07
     # harness (read-only use) through opus_repacketizer_out_range_impl, answered by the C07 model, which collects,
     # renumbers and re-emits extensions with this model's parse / generate
-    hr = ctx.harness('c07_repack', ['c07_repack.c'], variant='san')
     out.append(common.run_tie('ext-repack', [hr, 'rand', str(ctx.seed + 2000), _cases(ctx, 1500, 30000)]))
     # check.py looks at the first mismatches only: put those that are property violations on the
     # implementation (a concrete failing input) in front of plain model/implementation disagreements
